@@ -81,11 +81,25 @@ def grep_forbidden(layer):
     return bad
 
 
-def build_layer(layer, jobs=16, timeout=3000):
-    """Full .vo build of a layer (and its dependencies) through coq_makefile. Properties/*.v are
-    built too; per-property freshness is handled by compile_property."""
+def model_targets(layer):
+    """.vo targets of the proof-free part of a layer (Base/ Model/ Corr/)."""
+    d = layer_dir(layer)
+    out = []
+    for sd in layer_subdirs(layer):
+        if sd in ("Proofs", "Properties"):
+            continue
+        out += sorted(os.path.relpath(f, d)[:-2] + ".vo" for f in glob.glob(os.path.join(d, sd, "*.v")))
+    return out
+
+
+def build_layer(layer, jobs=16, timeout=3000, targets=None):
+    """Build a layer through coq_makefile (full .vo compilation, never -vos).
+    targets=None builds everything; targets="models" builds Base/Model/Corr only; a list builds those .vo
+    files (make pulls in exactly what they depend on).  Dependency layers are built models-only, so that a
+    proof file under construction elsewhere cannot break or stall this build.  Every coqc runs under a
+    12 GB address-space limit and the whole make under a wall-clock timeout."""
     for dep in LAYER_DEPS.get(layer, []):
-        rc, out = build_layer(dep, jobs, timeout)
+        rc, out = build_layer(dep, jobs, timeout, targets="models")
         if rc != 0:
             return rc, out
     d = layer_dir(layer)
@@ -106,7 +120,14 @@ def build_layer(layer, jobs=16, timeout=3000):
         sh("coq_makefile -f _CoqProject -o Makefile", cwd=d, check=True)
     elif not os.path.exists(os.path.join(d, "Makefile")):
         sh("coq_makefile -f _CoqProject -o Makefile", cwd=d, check=True)
-    rc, out, _ = sh("timeout %d make -j%d" % (timeout, jobs), cwd=d, timeout=timeout + 60)
+    if targets == "models":
+        tl = model_targets(layer)
+    elif targets:
+        tl = list(targets)
+    else:
+        tl = []
+    cmd = "ulimit -v 12000000; timeout %d make -j%d %s" % (timeout, jobs, " ".join(tl))
+    rc, out, _ = sh(["bash", "-c", cmd], cwd=d, timeout=timeout + 60)
     return rc, out
 
 
@@ -277,7 +298,7 @@ def proof_stage(chk, layer, prop):
     bad = grep_forbidden(layer)
     for dep in LAYER_DEPS.get(layer, []):
         bad += grep_forbidden(dep)
-    rc, out = build_layer(layer)
+    rc, out = build_layer(layer, targets=model_targets(layer) + ["Properties/%s.vo" % prop])
     ok = True
     if bad:
         rp = write_replay(prop, "theorem:forbidden-construct", {"found": bad})
